@@ -106,6 +106,21 @@ CHECKS["C10"] = dict(
     note="Only freedoms the guide documents are used; the REPL is represented by compile + is_indentation_error.",
     technique="TLC enumeration of typed prefixes (Blocks.tla) + layout-variant replay against the KotoCore oracle",
     engine="blocks")
+CHECKS["C11"] = dict(
+    category="exploration",
+    text="Format.tla states the formatter as a stuttering step on the abstract state (canonical syntax tree, comment sequence) that "
+         "is idempotent on text; every explored (text, options) pair is recorded as the trace Original -> Format -> Format and "
+         "validated against it by TLC. Inputs: the corpus (tests, docs, examples), generated programs of every KotoCore family in "
+         "randomised layouts with comments (a share with non-ASCII identifiers and string contents), the string-format-option grid, "
+         "in the thorough tier the token neighbourhood of the corpus; options from the 72-point grid. The formatted text of "
+         "generated programs is also run and compared with the KotoCore prediction (or with a run of the text as given). Decided on "
+         "the domain where nothing needs breaking (reference layout with line_length 255 fits, no chain broken, no shape of known "
+         "finding WS); outside it only totality (no panic, no error).",
+    design_ref="DESIGN.md §5 C11",
+    note="Known findings LB (the line breaker: pinned inputs) and WS (parser leniencies the formatter renders ambiguously); seven "
+         "formatter defects were repaired with fix: commits.",
+    technique="trace validation of format runs against Format.tla with TLC + replay of formatted programs against the KotoCore oracle",
+    engine="format")
 CHECKS["C12"] = _core("C12", "programs with one fault planted under 0..4 nested calls after line-shifting constructs; the "
                       "machine reports the failing node and the call-site nodes, which are mapped to source lines and "
                       "compared with the error's trace and with the lines quoted in the rendered message",
@@ -225,9 +240,11 @@ def main():
              "kind_free_text": "TLA+ specification of the VM's control state; hook events of real executions are folded through its actions (Trace_KotoVm.tla)"},
             {"name": "session", "path": "spec/Session.tla", "serves_properties": ["C07"],
              "kind_free_text": "TLA+ state machine of one embedding instance; TLC enumerates operation histories that are replayed on koto::Koto"},
+            {"name": "format", "path": "spec/Format.tla", "serves_properties": ["C11"],
+             "kind_free_text": "TLA+ statement of Format as a stuttering, idempotent step; recorded format runs are validated against it"},
             {"name": "blocks", "path": "spec/Blocks.tla", "serves_properties": ["C10"],
              "kind_free_text": "TLA+ model of block-structured text typed line by line; TLC enumerates typed prefixes"},
-            {"name": "kotocore", "path": "spec/KotoCore.tla", "serves_properties": ["C01", "C02", "C03", "C04", "C10", "C12", "C14", "C16", "C17", "C18"],
+            {"name": "kotocore", "path": "spec/KotoCore.tla", "serves_properties": ["C01", "C02", "C03", "C04", "C10", "C11", "C12", "C14", "C16", "C17", "C18"],
              "kind_free_text": "TLA+ abstract machine of the Koto language executed by TLC; predictions replayed into the implementation by harness/kv"},
         ],
         "checks": checks,
